@@ -425,6 +425,16 @@ pub fn attach(vm: &mut vm::VM<VState>, opts: &VmOptions) {
         .set_default_terminal(Rc::new(RefCell::new(term)));
     vm.state.mon.budget.set(opts.budget);
     vm.state.mon.record_macros = opts.record_macros;
+    // `\global\font` is legal TeX; the tag registry of the prefix component is not serialised,
+    // so (like an engine built on texlang would) register it on every attach.
+    if let Some(cs) = vm.cs_name_interner().get("font") {
+        if let Some(tag) = vm
+            .commands_map
+            .get_tag(&token::CommandRef::ControlSequence(cs))
+        {
+            vm.state.prefix.register_globally_prefixable_command(tag);
+        }
+    }
 }
 
 pub fn new_vm(opts: &VmOptions) -> Box<vm::VM<VState>> {
